@@ -798,6 +798,9 @@ func setRegexStringMatchOperator(r *RulesBasedSamplerCondition) error {
 	}
 
 	r.Matches = func(spanValue any, exists bool) bool {
+		if !exists {
+			return false
+		}
 		s := convertToString(spanValue)
 		return regex.MatchString(s)
 	}
